@@ -142,6 +142,25 @@ let handle (line : string) : string =
                 Printf.sprintf "%s %s %s %s %s %d %d %s" (hex_of_z !got) (hex_of_z pfull) (hex_of_z pb) (hex_of_z pm) (hex_of_z pa)
                   (List.length !left.l_ptrs) (if !left.l_full then 1 else 0) (fmt_state !right)
             | _ -> "?"))
+  | "SUB" :: kd :: rest ->
+      (* Subsume: U <kind> first.. ; second..  -> adjust full first second, merged left length/full, merged right *)
+      (match (if kd = "P" || kd = "R" then !tp else !tt) with
+       | LoadError _ -> "not-loaded"
+       | Loaded t ->
+           let tl = alookup t in
+           let n = nat_of_int !order in
+           let dr = (kd = "R") in
+           let rec split2 cur = function
+             | ";" :: r -> (List.rev cur, List.map n_of_hex r)
+             | x :: r -> split2 (n_of_hex x :: cur) r
+             | [] -> (List.rev cur, []) in
+           let (a, b) = split2 [] rest in
+           let frag ws = eval_tree n tl dr null_state (Rule (false, false, List.map (fun w -> Term w) ws)) in
+           let (_, pfull) = frag (a @ b) in
+           let (ca, pa) = frag a and (cb, pb) = frag b in
+           let ((adj, l1), r2) = subsume n tl dr ca.c_left ca.c_right cb.c_left cb.c_right in
+           Printf.sprintf "%s %s %s %s %d %d %s" (hex_of_z adj) (hex_of_z pfull) (hex_of_z pa) (hex_of_z pb)
+             (List.length l1.l_ptrs) (if l1.l_full then 1 else 0) (fmt_state r2))
   | "K" :: rest ->
       (* State comparison: K w.. ; w..   -> eq sign(compare) lt *)
       let rec split acc = function ";" :: r -> (List.rev acc, r) | x :: r -> split (x :: acc) r | [] -> (List.rev acc, []) in
